@@ -120,7 +120,7 @@ fn gen(rng: &mut Rng, max_steps: usize, big: bool) -> Vec<Step> {
 
 fn search_small(rng: &mut Rng, budget: usize) -> Option<String> {
     // fixed histories first (the ones recorded in DESIGN §5), then random ones
-    let fixed = ["a3;a3;c0,1;r", "a1;a1;a1;a1;a1;r;a1;r", "a1,1,1,1,1;c1,2;r", "a2;r;a2;r;a2;r", "a0;a0,0;r;a1", "a1,1,1;c0,3;r;a1;r"];
+    let fixed = ["a3;a3;c0,1;r", "a1;a1;a1;a1;a1;r;a1;r", "a1,1,1,1,1;c1,2;r", "a2;r;a2;r;a2;r", "a0;a0,0;r;a1", "a1,1,1;c0,3;r;a1;r", "a5;a5;a0;a0;c1,2;c3,4;a1;r", "a5;a5;a0;a5;c3,4;c1,2;c3,4;r;a2", "a3;a0;c0,1;c1,2;c0,2;a0;c2,3"];
     for f in fixed { let st = dec(f); if let Some(m) = check(&st, true) { return Some(format!("{{\"history\":\"{}\",\"why\":\"{}\"}}|{}", f, m, f)); } }
     for _ in 0..budget {
         let st = gen(rng, 9, false);
